@@ -15,66 +15,6 @@ open Grog
 /-- the `cas` namespace directory -/
 def casNS : Bytes := [99, 97, 115]
 
-theorem hist_run {s s' : FsBackend.State} (es : List FsBackend.Ev) (hr : FsBackend.run s es = some s') :
-    ∀ x ∈ s'.hist, x ∈ s.hist ∨ ∃ p, FsBackend.Ev.begin p x.1 x.2.1 x.2.2 ∈ es := by
-  induction es generalizing s with
-  | nil => simp [FsBackend.run] at hr; subst hr; intro x hx; exact Or.inl hx
-  | cons e es ih =>
-    simp only [FsBackend.run] at hr
-    cases hst : FsBackend.step s e with
-    | none => simp [hst] at hr
-    | some s1 =>
-      simp only [hst] at hr
-      intro x hx
-      rcases ih hr x hx with h | ⟨p, h⟩
-      · -- x ∈ s1.hist: either old or introduced by e
-        cases e with
-        | «begin» p ns key content =>
-          simp only [FsBackend.step] at hst
-          cases hp : s.procs p with
-          | some pr => simp [hp] at hst
-          | none =>
-            simp [hp] at hst; subst hst
-            simp at h
-            rcases h with rfl | h
-            · exact Or.inr ⟨p, by simp⟩
-            · exact Or.inl h
-        | createTemp p i =>
-          simp only [FsBackend.step] at hst
-          cases hp : s.procs p <;> simp [hp] at hst
-          obtain ⟨_, rfl⟩ := hst; exact Or.inl h
-        | write p n =>
-          simp only [FsBackend.step] at hst
-          cases hp : s.procs p with
-          | none => simp [hp] at hst
-          | some pr =>
-            cases ht : pr.tmp <;> simp [hp, ht] at hst
-            obtain ⟨_, rfl⟩ := hst; exact Or.inl h
-        | close p =>
-          simp only [FsBackend.step] at hst
-          cases hp : s.procs p <;> simp [hp] at hst
-          obtain ⟨_, rfl⟩ := hst; exact Or.inl h
-        | rename p =>
-          simp only [FsBackend.step] at hst
-          cases hp : s.procs p with
-          | none => simp [hp] at hst
-          | some pr =>
-            cases ht : pr.tmp <;> simp [hp, ht] at hst
-            obtain ⟨_, rfl⟩ := hst; exact Or.inl h
-        | fail p =>
-          simp only [FsBackend.step] at hst
-          cases hp : s.procs p with
-          | none => simp [hp] at hst
-          | some pr =>
-            cases ht : pr.tmp <;> simp [hp, ht] at hst <;> subst hst <;> exact Or.inl h
-        | crash p =>
-          simp only [FsBackend.step] at hst
-          cases hp : s.procs p <;> simp [hp] at hst
-          subst hst; exact Or.inl h
-        | delete ns key =>
-          simp [FsBackend.step] at hst; subst hst; exact Or.inl h
-      · exact Or.inr ⟨p, List.mem_cons_of_mem _ h⟩
-
 /-- **Every visible entry holds the complete content of one `Set` call issued for exactly that key** — for every
     interleaving of any number of Sets (same or different keys), every failing step, every kill point.
     Temp files (`FName.tmp`) are different names by construction and are never returned for a key. -/
@@ -84,7 +24,7 @@ theorem visible_is_complete_set (es : List FsBackend.Ev) (s' : FsBackend.State)
     ∃ p, FsBackend.Ev.begin p ns k c ∈ es := by
   have hinv := FsBackend.inv_run FsBackend.inv_init es hr
   have hh := hinv.visible ns k c hv
-  rcases hist_run es hr _ hh with h | h
+  rcases FsBackend.hist_run es hr _ hh with h | h
   · simp [FsBackend.init] at h
   · exact h
 
